@@ -295,6 +295,39 @@ func (c *checker) router(s string, vr, vt, vd bool) {
 			run.Distinct(fmt.Sprintf("route/query-digest/%s/valid=%v/reached=%v", q.name, vd, reached))
 		}
 	}
+	// the same parameters with s written into the URL as it stands (no escaping) and with a broken
+	// escape or a stray separator next to it: what the URL holds is then a digest only if the query
+	// string decodes at all and decodes to one
+	if s != "" {
+		for vi, raw := range []string{s, s + "%", s + "%zz", "%" + s, s + ";x"} {
+			for _, q := range []struct{ name, method, path, key, rest string }{
+				{"mount-with-from", "POST", "/v2/r/blobs/uploads/", "mount", "&from=q"},
+				{"post-digest", "POST", "/v2/r/blobs/uploads/", "digest", ""},
+				{"put-digest", "PUT", "/v2/r/blobs/uploads/c29tZS1pZA", "digest", ""},
+			} {
+				query := q.key + "=" + raw + q.rest
+				vals, perr := url.ParseQuery(query)
+				if len(vals[q.key]) > 1 || perr == nil && vals.Get(q.key) == "" {
+					continue // repeated, or empty and so as good as absent: not what is under test
+				}
+				want := perr == nil && ociref.IsValidDigest(vals.Get(q.key))
+				c.query = query
+				_, calls, ok := c.serve(q.method, q.path)
+				c.query = ""
+				reached := len(calls) > 0
+				if ok && reached != want && (reached || perr == nil) {
+					run.Violation(fmt.Sprintf("router-raw-query-digest/%s/v%d/reached=%v", q.name, vi, reached), fmt.Sprintf("%s %s?%s: the backend was reached=%v (calls %d) but the query decodes=%v and its %s is a valid digest=%v", q.method, q.path, query, reached, len(calls), perr == nil, q.key, want), map[string]any{"query": query})
+				}
+				for _, cl := range calls {
+					if cl.Digest != "" && (!ociref.IsValidDigest(cl.Digest) || !gram.ValidDigest(cl.Digest)) {
+						run.Violation("router-invalid-backend-arg/digest", fmt.Sprintf("backend %s called with invalid digest %q", cl.Method, cl.Digest), map[string]any{"query": query})
+					}
+				}
+				run.Count("router_raw_query_digests", 1)
+				run.Distinct(fmt.Sprintf("route/raw-query-digest/%s/decodes=%v/valid=%v/reached=%v", q.name, perr == nil, want, reached))
+			}
+		}
+	}
 	if strings.Contains(s, "/") {
 		// tags and digests never contain '/': only require that the backend never sees s verbatim
 		for _, p := range []string{"/v2/r/manifests/" + s, "/v2/r/blobs/" + s} {
